@@ -6,18 +6,18 @@ import AldorVerif.Gen.JMap
 `JPrint.print` models `jcBinOpPrint` (parentheses for an operand of lower class precedence, and for
 an operand of EQUAL precedence on the side the operator does not associate to); `Gen.JMap.binOps` is
 the operator table read from the source; `JPrint.Reads` is Java's own expression grammar with Java's
-own levels (`JPrint.jls`, from the JLS).
+own levels (`JPrint.jls`, from the JLS — not from the compiler's table).
 
 * `print_parse_roundtrip` — for every tree over a table that orders its operators the way Java does
   (`Consistent`), Java's grammar derives the printed token string with exactly the printed tree.
   (Java's expression grammar is unambiguous, so this is the tree Java reads; the executable side —
   the real printer's text parsed back with Java's rules — is checked by the correspondence of part
   `jprint`.)
-* The compiler's table is NOT consistent: `&`, `|`, `^` share class precedence 7 and `&&`, `||`
-  share 4, while Java ranks `&` > `^` > `|` and `&&` > `||`.  `table_consistent_statement_refuted`;
-  `bitwise_misread_witness`: `(a ^ b) & c` is printed `a ^ b & c`, which Java reads `a ^ (b & c)`.
-* `print_parse_roundtrip_partial` — the round trip for all trees that use at most one operator of
-  each of the two groups {`&`, `|`, `^`} and {`&&`, `||`} … stated for the table without `|`, `^`, `||`.
+* `table_consistent` — the compiler's table IS consistent with Java's ranking (since the fix that gave
+  `&` 7, `^` 6, `|` 5, `&&` 4, `||` 3), hence `print_parse_roundtrip_table`: the round trip for every
+  tree over the table's binary operators, no exclusion.
+* `equal_level_table_misreads` — why the ranking matters: with `&` and `^` on one level (the table before
+  the fix) `(a ^ b) & c` is printed `a ^ b & c`, which Java reads `a ^ (b & c)`.
 -/
 namespace AldorVerif.C12
 open AldorVerif AldorVerif.JPrint AldorVerif.Gen
@@ -31,42 +31,40 @@ theorem print_parse_roundtrip (ops : List Op) (h : Consistent ops) (t : Tree) (h
     Reads 0 (print t) t :=
   Reads.mono (print_reads_lvl h t ht) (Nat.zero_le _)
 
-/-- full-strength statement about the compiler's own table -/
-def table_consistent_statement : Prop := Consistent JMap.binOps
-theorem table_consistent_statement_refuted : ¬ table_consistent_statement := by
-  unfold table_consistent_statement Consistent; decide
+/-- the compiler's own table orders its operators the way Java does -/
+theorem table_consistent : Consistent JMap.binOps := by unfold Consistent; decide
 
-def opAnd : Op := ⟨"And", "&", 7, true⟩
-def opXOr : Op := ⟨"XOr", "^", 7, true⟩
-example : opAnd ∈ JMap.binOps ∧ opXOr ∈ JMap.binOps := by decide
+/-- **round trip for the compiler's table**: every tree over the binary operators of `JcOpInfoTable` is
+read back by Java as printed. -/
+theorem print_parse_roundtrip_table (t : Tree) (ht : t.Over JMap.binOps) : Reads 0 (print t) t :=
+  print_parse_roundtrip JMap.binOps table_consistent t ht
 
-/-- the witness: `(a ^ b) & c` is printed without parentheses and Java reads `a ^ (b & c)` -/
-theorem bitwise_misread_witness :
-    print (.bin opAnd (.bin opXOr (.leaf "a") (.leaf "b")) (.leaf "c"))
+/-- a table that puts `&` and `^` on one level (as the class table did before the fix) -/
+def eqAnd : Op := ⟨"And", "&", 7, true⟩
+def eqXOr : Op := ⟨"XOr", "^", 7, true⟩
+example : ¬ Consistent [eqAnd, eqXOr] := by unfold Consistent; decide
+
+/-- … prints `(a ^ b) & c` without parentheses, and Java reads `a ^ (b & c)` -/
+theorem equal_level_table_misreads :
+    print (.bin eqAnd (.bin eqXOr (.leaf "a") (.leaf "b")) (.leaf "c"))
       = [Tok.id "a", Tok.op "^", Tok.id "b", Tok.op "&", Tok.id "c"] ∧
     Reads 0 [Tok.id "a", Tok.op "^", Tok.id "b", Tok.op "&", Tok.id "c"]
-      (.bin opXOr (.leaf "a") (.bin opAnd (.leaf "b") (.leaf "c"))) := by
+      (.bin eqXOr (.leaf "a") (.bin eqAnd (.leaf "b") (.leaf "c"))) := by
   refine ⟨by decide, ?_⟩
   apply Reads.mono (k := 6) _ (Nat.zero_le _)
-  have hr : Reads 7 ([Tok.id "b"] ++ [Tok.op opAnd.txt] ++ [Tok.id "c"])
-      (.bin opAnd (.leaf "b") (.leaf "c")) :=
-    Reads.bin opAnd 7 _ _ _ _ (by decide) (Reads.leaf _ _) (Reads.leaf _ _)
-  exact Reads.bin opXOr 6 [Tok.id "a"] _ (.leaf "a") _ (by decide) (Reads.leaf _ _) hr
+  have hr : Reads 7 ([Tok.id "b"] ++ [Tok.op eqAnd.txt] ++ [Tok.id "c"])
+      (.bin eqAnd (.leaf "b") (.leaf "c")) :=
+    Reads.bin eqAnd 7 _ _ _ _ (by decide) (Reads.leaf _ _) (Reads.leaf _ _)
+  exact Reads.bin eqXOr 6 [Tok.id "a"] _ (.leaf "a") _ (by decide) (Reads.leaf _ _) hr
 
-/-- the table without the lower-ranked members of the two groups that share a class precedence -/
-def coreOps : List Op := JMap.binOps.filter fun o => !(o.txt == "|" || o.txt == "^" || o.txt == "||")
-
-theorem core_consistent : Consistent coreOps := by unfold Consistent; decide
-
-/-- **round trip, proved part**: every tree over the arithmetic, shift, comparison, equality operators,
-`&` and `&&` is read back by Java as printed. -/
-theorem print_parse_roundtrip_partial (t : Tree) (ht : t.Over coreOps) : Reads 0 (print t) t :=
-  print_parse_roundtrip coreOps core_consistent t ht
+/-- with the table as it is now the same tree keeps its parentheses -/
+example : (print (.bin ⟨"And", "&", 7, true⟩ (.bin ⟨"XOr", "^", 6, true⟩ (.leaf "a") (.leaf "b")) (.leaf "c"))).map showTok
+    = ["(", "a", "^", "b", ")", "&", "c"] := by decide
 
 /-- non-vacuity: `k * (a / b)` and `x - (10 - y)` keep their parentheses -/
 example : (print (.bin ⟨"Times", "*", 12, true⟩ (.leaf "k") (.bin ⟨"Divide", "/", 12, true⟩ (.leaf "a") (.leaf "b")))).map showTok
     = ["k", "*", "(", "a", "/", "b", ")"] := by decide
-example : Tree.Over coreOps (.bin ⟨"Minus", "-", 11, true⟩ (.leaf "x") (.bin ⟨"Minus", "-", 11, true⟩ (.leaf "10") (.leaf "y"))) :=
+example : Tree.Over JMap.binOps (.bin ⟨"Minus", "-", 11, true⟩ (.leaf "x") (.bin ⟨"Minus", "-", 11, true⟩ (.leaf "10") (.leaf "y"))) :=
   ⟨by decide, trivial, by decide, trivial, trivial⟩
 
 end AldorVerif.C12
